@@ -137,8 +137,11 @@ def run(ctx):
         if hs:
             segs = B.nf(ev, hs[0].args[0])
             dstp = B.peel(hs[0].args[1])
-            ok = len(segs) == 2 and segs[0][0] == "v" and segs[0][1].op == "call" and B.cname(segs[0][1]) == "GroupEncoding::to_bytes" and B.peel(segs[0][1].a[1][0]).op == "param" and B.peel(segs[0][1].a[1][0]).a[1] == "u" and segs[1][0] == "v" and segs[1][1].op == "param" and segs[1][1].a[1] == "v" and dstp.op == "param" and dstp.a[1] == "dst"
-        weak = not B.is_strong(segs) and not B.clobbers(segs)
+            shape = lambda sg: len(sg) == 2 and sg[0][0] == "v" and sg[0][1].op == "call" and B.cname(sg[0][1]) == "GroupEncoding::to_bytes" and B.peel(sg[0][1].a[1][0]).op == "param" and B.peel(sg[0][1].a[1][0]).a[1] == "u" and sg[1][0] == "v" and sg[1][1].op == "param" and sg[1][1].a[1] == "v"
+            ok, weak = B.decide(segs, shape)
+            ok = ok and dstp.op == "param" and dstp.a[1] == "dst"
+        else:
+            weak = False
         ctx.ob("E5.w", "compute_w", ok or weak, "W input = %s under the caller's tag (pinned: to_bytes(U) ‖ V)" % B.show_nf(segs), where=where(f), weak=weak, sample={"w_input": B.show_nf(segs)})
     # keystream
     PR.check_xof_mask(ctx, "E5.keystream", P, "BlsSignCrypt::compute_v", "uar", "r", "Shake128", True)
